@@ -42,7 +42,7 @@ enum Opt {
 
 fn bounds(t: Tier) -> (usize, usize) {
     // (max lines, max template args)
-    t.pick((2, 2), (3, 2))
+    t.pick((2, 2), (3, 3))
 }
 
 fn spec(t: Tier) -> Spec {
